@@ -611,6 +611,13 @@ func main() {
 			e4(engine, bal, 3, d43, &idx4, true)
 		}
 	}
+	idx5 := 1 << 21
+	for _, engine := range []string{"sherpa", "olla"} {
+		for _, bal := range []string{"priority", "least-connections"} {
+			e5(engine, bal, d42, &idx5)
+		}
+	}
+	res.Info["E5"] = fmt.Sprintf("assembled system (2 engines x {priority, least-connections}), 2 endpoints: every history of depth <= %d ending in a request over {flip A, flip B, forced health round, request, hold (a request that stays in flight where it was dispatched), release}; oracle as in E4", d42)
 	res.Info["E4"] = fmt.Sprintf("assembled system (2 engines x 3 balancers): every history ending in a request over {flip X, forced health round, request}, 2 endpoints depth %d, 3 endpoints depth %d; scripted backends see every dispatch", d42, d43)
 	res.Info["bounds"] = map[string]any{"E1": "lists n<=4 over status(6) x priority{0,1,2} x 3 balancers (priority: 8 RNG cells)", "E2": fmt.Sprintf("2 endpoints depth %d, 3 endpoints depth %d; events: periodic health round (61 s later) and forced health round (at once) with every per-endpoint outcome mask, request with every per-endpoint refuse mask", d2, d3),
 		"E3": fmt.Sprintf("3 threads, preemption bound %d", b)}
